@@ -223,7 +223,10 @@ ASSUMPTIONS = [
 LEVEL_TEXT = (
     "Lean theorems for all class universes / instances of the typed fragment valOKj (str/int/bool, model-class, list and wrapped-list "
     "fields, both dictionary factories, every parser config): dict_rt, list_rt, json_rt, encode_json_native, best_match_unique; "
-    "the full-strength statement is refuted by five witnesses on real exported contexts (known findings), all replayed on /repo; "
+    "the full-strength statement is still refuted by two witnesses on real exported contexts that are inherent in the untagged JSON shape "
+    "(subclass ambiguity, model instance under a wildcard; known findings, replayed on /repo); the former counterexamples for FILTER_NONE "
+    "generic elements, wrapped lists in candidate pools and compound str/int are now positive theorems (filter_none_any_roundtrip, "
+    "wrapper_best_roundtrip, compound_exact_type_first) after the repairs; "
     "model tied to /repo by dict.enc / dict.dec / dict.roundtrip on generated universes incl. wildcard, compound, attributes, tokens, "
     "wrapper, inheritance, unknown keys and wrong shapes."
 )
@@ -344,20 +347,13 @@ def finding_subclass():
     return order_dependent and changed, f"order_dependent={order_dependent}, distinct end-to-end results over fresh class sets={len(seen)}"
 
 
-def finding_filter_none_any():
-    k, v, _ = _rt(W.ANY_DESC, W.ANY_VALUE, "filter_none")
-    k2, v2, _ = _rt(W.ANY_DESC, W.ANY_VALUE, "dict")
-    return (k, v) == ("err", "ParserError") and k2 == "ok" and v2 == W.ANY_VALUE, f"filter_none: {k} {v}; dict: {k2}"
-
-
-def finding_wrapper():
-    k, v, _ = _rt(W.WRAP_DESC, W.WRAP_VALUE)
-    return (k, v) == ("err", "ParserError"), f"{k} {v}"
-
-
 def finding_derived():
+    """a model instance under a wildcard — wrapped in a DerivedElement without xsi:type, or plain as the
+    XML parser leaves a known element — does not decode: the candidates are the parent's element types"""
     k, v, _ = _rt(W.DER_DESC, W.DER_VALUE)
-    return (k, v) == ("err", "ParserError"), f"{k} {v}"
+    plain = {"obj": "WL", "fields": [["any", {"list": [{"obj": "X", "fields": [["a", {"int": 1}]]}]}]]}
+    k2, v2, _ = _rt(W.DER_DESC, plain)
+    return (k, v) == ("err", "ParserError") and (k2, v2) == ("err", "ParserError"), f"derived: {k} {v}; plain: {k2} {v2}"
 
 
 def oracle_rich_check(a):
@@ -378,30 +374,8 @@ def covered_rich(a, msg):
     return r.get("unspecified")
 
 
-def finding_union_str():
-    """`U(a="5")` with `a: Optional[Union[int, str]]` -> {"a": "5"} -> U(a=5)"""
-    from dataclasses import dataclass, field
-    from typing import List, Optional, Union
-
-    from xsdata.formats.dataclass.parsers import DictDecoder
-    from xsdata.formats.dataclass.serializers import DictEncoder
-
-    @dataclass
-    class U:
-        a: Optional[Union[int, str]] = field(default=None, metadata={"type": "Element"})
-        b: List[Union[float, str]] = field(default_factory=list, metadata={"type": "Element"})
-
-    o = U(a="5", b=["1e5", "x"])
-    d = DictEncoder().encode(o)
-    r = DictDecoder().decode(d, U)
-    return d == {"a": "5", "b": ["1e5", "x"]} and r.a == 5 and type(r.a) is int and r.b == [100000.0, "x"], f"{d} -> {r}"
-
-
 FINDINGS = {
-    "C04-union-str-as-number": finding_union_str,
     "C04-subclass-ambiguity": finding_subclass,
-    "C04-filter-none-anyelement": finding_filter_none_any,
-    "C04-wrapper-local-names": finding_wrapper,
     "C04-derived-without-type": finding_derived,
 }
 
